@@ -845,12 +845,43 @@ class SInt(Sym):
     __hash__ = Sym.__hash__
 
     def __format__(self, spec):
-        from . import tokens
-        return tokens.token_for(self)
+        return _fmt_number(self, spec)
 
     def __str__(self):
         from . import tokens
         return tokens.token_for(self)
+
+
+def _fmt_number(x, spec):
+    """
+    placeholder text for a symbolic number.  '%g' keeps 6 significant digits: an integer value below 10^6 prints exactly,
+    from 10^6 on the text is the value rounded (half-even) to 6 significant digits in scientific notation - the placeholder
+    then stands for that rounded value.  Bounded to |x| < 10^9; anything else is Unsupported.
+    """
+    from . import tokens
+    if spec in ("", "d", "s", "n"):
+        return tokens.token_for(x)
+    if spec in ("g", "G", ".6g"):
+        if isinstance(x, SReal):
+            if x.nan is not False and builtins.bool(x.isnan()):
+                return "nan"
+            if not builtins.bool(mkbool(z3.IsInt(x.t))):
+                raise Unsupported("'%g' of a non-integer symbolic float")
+        if builtins.bool(x < 0):
+            raise Unsupported("'%g' of a negative symbolic number")
+        if builtins.bool(x < 1000000):
+            return tokens.token_for(x)
+        for e in (6, 7, 8):
+            if builtins.bool(x < 10 ** (e + 1)):
+                step = 10 ** (e - 5)
+                v = x if isinstance(x, SInt) else x.trunc()
+                f = v // step
+                rem = v - f * step
+                up = or_(rem * 2 > step, and_(eq(rem * 2, step), eq(f % 2, 1)))
+                w = ite(up, f + 1, f) * step
+                return tokens.token_for(_as_real(w) if isinstance(x, SReal) else w)
+        raise Unsupported("'%g' of a symbolic number >= 10^9")
+    raise Unsupported(f"format spec {spec!r} on a symbolic number")
 
 
 def _floordiv(a, b):
@@ -1007,8 +1038,7 @@ class SReal(Sym):
         return mkbool(self.nan) if not isinstance(self.nan, builtins.bool) else self.nan
 
     def __format__(self, spec):
-        from . import tokens
-        return tokens.token_for(self)
+        return _fmt_number(self, spec)
 
     def __str__(self):
         from . import tokens
